@@ -229,6 +229,7 @@ FORWARD_TEMPLATES = [
 
 
 class C03(PropertyCheck):
+    extra_vo = ['Lang/CellsInst.vo', 'Lang/ForwardInst.vo']          # model files evaluated by the correspondence that Props/<id>.v does not depend on
     id = 'C03'
     imports = IMPORTS
     technique = 'Coq proof of interner injectivity tied to the extracted regex + lexical reference evaluator; deep-nesting / shadowing / escaping-closure differential correspondence'
